@@ -137,7 +137,7 @@ def run(repo, check):
     from sa.rules import c01, c05, c19
     from sa.rules.common import share
     share(check, repo, c19.rule_r1, 'C03.R6', 'reader and writer agree per type and width (shared with C19.R1)', args=(check.tier,))
-    share(check, repo, c05.rule_r2, 'C03.R7', 'compressed columns: all-equal shortcut never drops a missing entry (shared with C05.R2)')
+    # (C03.R7, the symbolic form of "the all-equal shortcut never drops a missing entry", is decided by the column round trip R9)
     share(check, repo, c01.rule_r6, 'C03.R8', 'decoder arithmetic of the numeric primitives (shared with C01.R6)')
     from sa.rules import columns
     share(check, repo, columns.rule_columns, 'C03.R9', args=(check.tier, 'C03.R9'))
